@@ -919,10 +919,10 @@ func (prop) Judge(b core.Batch, recs []core.Rec, exits []core.Exit) []core.Resul
 				cls := interClass(sc)
 				if c.HTTP && !bytes.HasSuffix(pl, []byte("\r\n\r\n")) {
 					cls = "payload-is-not-a-complete-http-request"
-				} else if c.HTTP && (firstPush > 2048 || (c.Psh != 0 && len(c.Segs) > 1)) {
-					// the request is complete, but longer than the handler's one read of 2048 bytes or spread over
-					// unpushed segments: the handler may have read a part of it only (as in the two payload findings),
-					// and the HTTP decoders say nothing about what they cannot parse
+				} else if c.HTTP && (total > 2048 || firstPush < total || (c.Psh != 0 && len(c.Segs) > 1)) {
+					// the request is complete, but longer than the handler's one read of 2048 bytes, or pushed before
+					// its end, or spread over unpushed segments: the handler may have read a part of it only (as in
+					// the two payload findings), and the HTTP decoders say nothing about what they cannot parse
 					cls = "complete-http-request-read-in-part"
 				}
 				fail("no-event|"+portClass(c)+"|"+cls, fmt.Sprintf("connection %s:%d -> :%d (%d bytes, push after %d) was not reported in any event (events: %d)", sc.peer(c.Peer), c.Sport, c.Dport, total, firstPush, len(ob.Events)))
